@@ -14,7 +14,14 @@
 //!     tiebreak <sym|file|origin> <key> <offset>   file offset of the entry that survived sort_unstable + dedup
 //!     part <cut>*                         chunks [0,c1) [c1,c2) … [ck,len), cuts clamped to len; no cuts = one chunk
 //!     partsize <n>                        chunks of n bytes; zero chunks for the empty file
-//!     lookup <addr>*                      relative addresses to look up (≤ 40 per line)
+//!     lookup <addr>*                      relative addresses to look up (≤ 40 per line), in this order; a second pass
+//!                                         repeats addresses in shuffled / descending order
+//!     itersyms                            call `iter_symbols()` on the map at this point of the lookup sequence
+//!     stored <kind> <hex>                 one more map over the same text that is offered these bytes as `.symindex`
+//!                                         kind: empty | trunc | magic | counts | foreign | garbage | padded
+//!     wholesym fresh                      the text as `<dir>/x/<ID>/x.sym` under a `wholesym::SymbolManager` with
+//!     wholesym stale <kind> <hex>         `breakpad_symbol_dir` + `breakpad_symindex_cache_dir`; stale: the `.symindex`
+//!                                         file exists already with these bytes
 //!   The file = concatenation of all l / rep payloads. The first partition op is always `part`.
 //!   `execute` uses only the bytes of l / rep, the partition ops and the lookups (replayable).
 //!
@@ -33,6 +40,10 @@
 //!     frame <functionhex|none> <filehex|none> <line|none>                        nframes of them after such a look line
 //!     storedmap … / slook … / sframe …     the same with the index bytes of the LAST partition op served as .symindex
 //!         (if that op is not ok the location offers no symindex)
+//!     iter <addr> <namehex> / siter …     per symbol `iter_symbols()` yields, after an `itersyms` op (`iter panic`)
+//!     x<k>map / x<k>look / x<k>frame / x<k>iter      the same for the k-th `stored` op
+//!     w<k>map / w<k>look / w<k>frame / w<k>iter      the same for the k-th `wholesym` op (err:load if no map), then
+//!     w<k>index <absent|<len> <fnv>>      the `.symindex` file in the cache directory afterwards
 // (no glob import: `FileContents::len` would shadow `<[u8]>::len` on `&&[u8]`)
 use samply_symbols::{
     BreakpadIndex, BreakpadIndexCreator, CandidatePathInfo, Error, FileAndPathHelper, FileAndPathHelperResult, FileLocation,
@@ -208,44 +219,64 @@ fn index_lines(bytes: &[u8], out: &mut Vec<String>) {
     out.push(rt.unwrap_or_else(|_| "roundtrip panic 0 0 diff".to_string()));
 }
 
-/// Lines of one symbol map: `<m> …`, then `<l> …` / `<f> …` per looked-up address.
-fn map_lines(file: &[u8], index: Option<&[u8]>, addrs: &[u32], tags: [&str; 3], out: &mut Vec<String>, stats: &mut Stats) {
-    let [m, l, f] = tags;
-    let helper = Helper { sym: file.to_vec(), index: index.map(|b| b.to_vec()).unwrap_or_default() };
-    let loc = Loc(if index.is_some() { "sym+index" } else { "sym" });
-    let sm = SymbolManager::with_helper(helper);
-    let loaded = catch_unwind(AssertUnwindSafe(|| futures::executor::block_on(sm.load_symbol_map_from_location(loc, None))));
-    let map = match loaded {
-        Err(_) => {
-            stats.bump(&format!("{m}_panic"));
-            out.push(format!("{m} panic"));
-            return;
-        }
-        Ok(Err(e)) => {
-            let kind = match e {
-                Error::InvalidInputError(_) => "err:notbreakpad",
-                Error::BreakpadParsing(_) => "err:nomodule",
-                _ => "err:other",
-            };
-            stats.bump(&format!("{m}_{kind}"));
-            out.push(format!("{m} {kind}"));
-            return;
-        }
-        Ok(Ok(map)) => map,
-    };
+/// What `emit_map` needs of a symbol map (samply-symbols' and wholesym's wrappers of the same map).
+trait MapApi {
+    fn id(&self) -> String;
+    fn look(&self, a: u32) -> Option<samply_symbols::SyncAddressInfo>;
+    fn iter(&self) -> Vec<(u32, String)>;
+}
+impl MapApi for samply_symbols::SymbolMap<Helper> {
+    fn id(&self) -> String {
+        self.debug_id().breakpad().to_string()
+    }
+    fn look(&self, a: u32) -> Option<samply_symbols::SyncAddressInfo> {
+        self.lookup_sync(LookupAddress::Relative(a))
+    }
+    fn iter(&self) -> Vec<(u32, String)> {
+        self.iter_symbols().map(|(a, n)| (a, n.into_owned())).collect()
+    }
+}
+impl MapApi for wholesym::SymbolMap {
+    fn id(&self) -> String {
+        self.debug_id().breakpad().to_string()
+    }
+    fn look(&self, a: u32) -> Option<samply_symbols::SyncAddressInfo> {
+        self.lookup_sync(LookupAddress::Relative(a))
+    }
+    fn iter(&self) -> Vec<(u32, String)> {
+        self.iter_symbols().map(|(a, n)| (a, n.into_owned())).collect()
+    }
+}
+
+/// `Some(a)` = lookup of `a`, `None` = `iter_symbols()`.
+type Action = Option<u32>;
+
+/// Lines of one loaded symbol map: `<m> ok <id>`, then per action `<p>look …` + `<p>frame …` or `<p>iter …`.
+fn emit_map(map: &dyn MapApi, actions: &[Action], m: &str, p: &str, out: &mut Vec<String>, stats: &mut Stats) {
     stats.bump(&format!("{m}_ok"));
-    out.push(format!("{m} ok {}", map.debug_id().breakpad()));
+    out.push(format!("{m} ok {}", map.id()));
     let opt = |o: Option<String>| o.unwrap_or_else(|| "none".to_string());
-    for &a in addrs {
+    for act in actions {
+        let Some(a) = *act else {
+            stats.bump("itersyms");
+            match catch_unwind(AssertUnwindSafe(|| map.iter())) {
+                Err(_) => out.push(format!("{p}iter panic")),
+                Ok(v) => {
+                    stats.add("iter_symbols", v.len() as u64);
+                    out.extend(v.iter().map(|(a, n)| format!("{p}iter {a} {}", hex(n.as_bytes()))));
+                }
+            }
+            continue;
+        };
         stats.bump("lookups");
-        match catch_unwind(AssertUnwindSafe(|| map.lookup_sync(LookupAddress::Relative(a)))) {
+        match catch_unwind(AssertUnwindSafe(|| map.look(a))) {
             Err(_) => {
                 stats.bump("look_panic");
-                out.push(format!("{l} {a} panic"));
+                out.push(format!("{p}look {a} panic"));
             }
             Ok(None) => {
                 stats.bump("look_none");
-                out.push(format!("{l} {a} none"));
+                out.push(format!("{p}look {a} none"));
             }
             Ok(Some(info)) => {
                 let (n, frames) = match &info.frames {
@@ -259,13 +290,13 @@ fn map_lines(file: &[u8], index: Option<&[u8]>, addrs: &[u32], tags: [&str; 3], 
                     stats.bump(&format!("look_frames={}", frames.len().min(5)));
                 }
                 let s = &info.symbol;
-                out.push(format!("{l} {a} sym {} {} {} {n}", s.address, opt(s.size.map(|v| v.to_string())), hex(s.name.as_bytes())));
+                out.push(format!("{p}look {a} sym {} {} {} {n}", s.address, opt(s.size.map(|v| v.to_string())), hex(s.name.as_bytes())));
                 for fr in frames {
                     if fr.file_path.is_none() {
                         stats.bump("frame_without_file");
                     }
                     out.push(format!(
-                        "{f} {} {} {}",
+                        "{p}frame {} {} {}",
                         opt(fr.function.as_ref().map(|s| hex(s.as_bytes()))),
                         opt(fr.file_path.as_ref().map(|p| hex(p.raw_path().as_bytes()))),
                         opt(fr.line_number.map(|v| v.to_string()))
@@ -274,6 +305,77 @@ fn map_lines(file: &[u8], index: Option<&[u8]>, addrs: &[u32], tags: [&str; 3], 
             }
         }
     }
+}
+
+/// One symbol map through samply-symbols with the in-memory helper; `index` = bytes offered as `.symindex`.
+fn map_lines(file: &[u8], index: Option<&[u8]>, actions: &[Action], m: &str, p: &str, out: &mut Vec<String>, stats: &mut Stats) {
+    let helper = Helper { sym: file.to_vec(), index: index.map(|b| b.to_vec()).unwrap_or_default() };
+    let loc = Loc(if index.is_some() { "sym+index" } else { "sym" });
+    let sm = SymbolManager::with_helper(helper);
+    let loaded = catch_unwind(AssertUnwindSafe(|| futures::executor::block_on(sm.load_symbol_map_from_location(loc, None))));
+    match loaded {
+        Err(_) => {
+            stats.bump(&format!("{m}_panic"));
+            out.push(format!("{m} panic"));
+        }
+        Ok(Err(e)) => {
+            let kind = match e {
+                Error::InvalidInputError(_) => "err:notbreakpad",
+                Error::BreakpadParsing(_) => "err:nomodule",
+                _ => "err:other",
+            };
+            stats.bump(&format!("{m}_{kind}"));
+            out.push(format!("{m} {kind}"));
+        }
+        Ok(Ok(map)) => emit_map(&map, actions, m, p, out, stats),
+    }
+}
+
+static WS_COUNTER: std::sync::atomic::AtomicU64 = std::sync::atomic::AtomicU64::new(0);
+
+/// The text as a local `.sym` file of a `wholesym::SymbolManager` with a symindex cache directory
+/// (`ensure_symindex` → `parse_sym_file_into_index`, 2 MiB reads; an existing `.symindex` is reused).
+/// `debug_id` = what the self-indexing map reported (the file is stored where that id is looked for);
+/// `None` (no self map) ⇒ a fixed id, the load is then expected to fail the way the self map did.
+fn wholesym_lines(file: &[u8], existing: Option<&[u8]>, debug_id: Option<&str>, self_status: &str, actions: &[Action], k: usize, out: &mut Vec<String>, stats: &mut Stats) {
+    let (m, p) = (format!("w{k}map"), format!("w{k}"));
+    let root = std::env::var("VERIF_ROOT").map(std::path::PathBuf::from).unwrap_or_else(|_| std::env::current_dir().unwrap());
+    let dir = root.join(".work/C10/tmp").join(format!("ws-{}-{}", std::process::id(), WS_COUNTER.fetch_add(1, std::sync::atomic::Ordering::SeqCst)));
+    let id = debug_id.and_then(|s| debugid::DebugId::from_breakpad(s).ok());
+    let id_for_path = id.unwrap_or_else(|| debugid::DebugId::from_breakpad("0123456789ABCDEF0123456789ABCDEF0").unwrap());
+    let rel = format!("x/{}/x.sym", id_for_path.breakpad());
+    let (sym_dir, idx_dir) = (dir.join("syms"), dir.join("symindex"));
+    let sym_path = sym_dir.join(&rel);
+    let idx_path = idx_dir.join(&rel).with_extension("symindex");
+    let prepared = std::fs::create_dir_all(sym_path.parent().unwrap()).and_then(|_| std::fs::write(&sym_path, file)).and_then(|_| match existing {
+        Some(b) => std::fs::create_dir_all(idx_path.parent().unwrap()).and_then(|_| std::fs::write(&idx_path, b)),
+        None => Ok(()),
+    });
+    if prepared.is_err() {
+        out.push(format!("{m} err:setup"));
+        let _ = std::fs::remove_dir_all(&dir);
+        return;
+    }
+    stats.bump(if existing.is_some() { "wholesym_stale" } else { "wholesym_fresh" });
+    let loaded = catch_unwind(AssertUnwindSafe(|| {
+        let rt = tokio::runtime::Builder::new_current_thread().enable_all().build().unwrap();
+        rt.block_on(async {
+            let config = wholesym::SymbolManagerConfig::new().breakpad_symbol_dir(sym_dir.clone()).breakpad_symindex_cache_dir(idx_dir.clone());
+            let sm = wholesym::SymbolManager::with_config(config);
+            sm.load_symbol_map("x", id_for_path).await
+        })
+    }));
+    match loaded {
+        Err(_) => out.push(format!("{m} panic")),
+        // wholesym reports "no candidate worked"; the reason is the one the self-indexing map gave for the same bytes
+        Ok(Err(_)) => out.push(format!("{m} {}", if self_status.starts_with("err:") { self_status } else { "err:load" })),
+        Ok(Ok(map)) => emit_map(&map, actions, &m, &p, out, stats),
+    }
+    out.push(match std::fs::read(&idx_path) {
+        Ok(b) => format!("{p}index {} {}", b.len(), fnv64(&b)),
+        Err(_) => format!("{p}index absent"),
+    });
+    let _ = std::fs::remove_dir_all(&dir);
 }
 
 // ---------------------------------------------------------------------------------------------
@@ -354,7 +456,7 @@ fn cuts_op(cuts: &[usize]) -> String {
 const LONG_LINE: usize = 5000; // files with a longer line: only partsize ≥ 64 and ≤ 50 cuts per part
 const MAX_CUTS: usize = 4000; // per part op, any file
 const PARTSIZE1_MAX_LEN: usize = 20000; // no `partsize 1` for longer files
-const ALL_CUTS_MAX_LEN: usize = 2000; // thorough: every single-cut partition for files up to this size
+const ALL_CUTS_MAX_LEN: usize = 1500; // thorough: every single-cut partition for files up to this size
 
 fn gen_partitions(rng: &mut Rng, file: &[u8], tier: Tier) -> Vec<String> {
     let len = file.len();
@@ -430,7 +532,26 @@ fn gen_lookups(rng: &mut Rng, interesting: &[u32], boundary: &[u32]) -> Vec<Stri
             rng.pick(interesting).wrapping_add(rng.below(0x40) as u32).wrapping_sub(0x10)
         });
     }
-    addrs.chunks(40).map(|c| format!("lookup {}", c.iter().map(|a| a.to_string()).collect::<Vec<_>>().join(" "))).collect()
+    let line = |c: &[u32]| format!("lookup {}", c.iter().map(|a| a.to_string()).collect::<Vec<_>>().join(" "));
+    let mut ops: Vec<String> = addrs.chunks(40).map(line).collect();
+    // second pass after `iter_symbols()` has filled the caches through its own code path: a shuffled
+    // selection (addresses seen before, so every cache entry is hit again), some addresses twice in a row,
+    // and a strictly descending run (a "remember the last index and gallop forward" fast path is wrong
+    // exactly there)
+    ops.push("itersyms".to_string());
+    let mut second = addrs.clone();
+    rng.shuffle(&mut second);
+    second.truncate(24);
+    let twice: Vec<u32> = second.iter().take(4).flat_map(|a| [*a, *a]).collect();
+    let mut desc: Vec<u32> = second.clone();
+    desc.sort();
+    desc.dedup();
+    desc.reverse();
+    desc.truncate(12);
+    second.extend(twice);
+    second.extend(desc);
+    ops.extend(second.chunks(40).map(line));
+    ops
 }
 
 /// Addresses mentioned on FUNC / PUBLIC-looking lines in any spelling (tabs, several spaces, …),
@@ -455,6 +576,11 @@ fn extra_addresses(items: &[Item]) -> Vec<u32> {
 }
 
 fn build_ops(rng: &mut Rng, tier: Tier, family: &str, reading: u8, items: &[Item], partitions: Option<Vec<String>>, extra_lookups: &[u32]) -> Vec<String> {
+    build_ops_with(rng, tier, family, reading, items, partitions, extra_lookups, Vec::new())
+}
+
+#[allow(clippy::too_many_arguments)]
+fn build_ops_with(rng: &mut Rng, tier: Tier, family: &str, reading: u8, items: &[Item], partitions: Option<Vec<String>>, extra_lookups: &[u32], extra_ops: Vec<String>) -> Vec<String> {
     let file = file_of(items);
     let mut ops = vec![format!("family {family}"), format!("reading {reading}")];
     for it in items {
@@ -466,11 +592,18 @@ fn build_ops(rng: &mut Rng, tier: Tier, family: &str, reading: u8, items: &[Item
     }
     ops.extend(tiebreaks(items, &file));
     ops.extend(partitions.unwrap_or_else(|| gen_partitions(rng, &file, tier)));
+    ops.extend(extra_ops);
     let descs = || items.iter().filter(|it| it.count == 1).map(|it| it.desc.as_str());
     let mut interesting: BTreeSet<u32> = addresses_of_descs(descs(), false).into_iter().collect();
     interesting.extend(extra_lookups);
     let interesting: Vec<u32> = interesting.into_iter().collect();
-    ops.extend(gen_lookups(rng, &interesting, &addresses_of_descs(descs(), true)));
+    let mut lookups = gen_lookups(rng, &interesting, &addresses_of_descs(descs(), true));
+    if family == "big" {
+        // the model re-parses the 1 MiB FUNC block for every lookup: first pass only
+        let at = lookups.iter().position(|l| l == "itersyms").unwrap_or(lookups.len());
+        lookups.truncate(at);
+    }
+    ops.extend(lookups);
     ops
 }
 
@@ -797,6 +930,102 @@ fn gen_junk(rng: &mut Rng) -> Vec<Vec<u8>> {
 }
 
 // ---------------------------------------------------------------------------------------------
+// family stored: damaged / foreign `.symindex` bytes, wholesym's local-file path
+// ---------------------------------------------------------------------------------------------
+
+fn put32(b: &mut [u8], at: usize, v: u32) {
+    b[at..at + 4].copy_from_slice(&v.to_le_bytes());
+}
+fn get32(b: &[u8], at: usize) -> u32 {
+    u32::from_le_bytes([b[at], b[at + 1], b[at + 2], b[at + 3]])
+}
+
+/// `(kind, bytes)` of stored indexes derived from the valid index `valid` of the text and the valid index
+/// `foreign` of another text with the same MODULE line. Kinds `empty`, `trunc`, `magic`, `counts` cannot be
+/// accepted by any reader of the format (the judge demands that the map ignores them); `foreign`,
+/// `garbage`, `padded` may parse — for them only the model speaks (and "no panic").
+/// Header: magic 0..8, then u32s: version 8, mi_off 12, mi_len 16, file_count 20, file_off 24,
+/// origin_count 28, origin_off 32, sym_count 36, addr_off 40, entries_off 44.
+fn bad_indexes(rng: &mut Rng, valid: Option<&[u8]>, foreign: Option<&[u8]>) -> Vec<(&'static str, Vec<u8>)> {
+    let mut v: Vec<(&'static str, Vec<u8>)> = vec![("empty", Vec::new())];
+    let Some(valid) = valid.filter(|b| b.len() >= 48) else {
+        v.push(("garbage", (0..rng.range(1, 80)).map(|_| rng.below(256) as u8).collect()));
+        v.push(("magic", b"SYMINDEX".to_vec())); // nothing but the magic: too short for a header
+        return v;
+    };
+    let len = valid.len();
+    // truncation at every table boundary, just before / after, and at random places
+    let mut cuts: Vec<usize> = vec![1, 7, 8, 47, 48, len - 1, len - 15, len - 16];
+    for at in [12usize, 24, 32, 40, 44] {
+        let off = get32(valid, at) as usize;
+        cuts.extend([off, off + 1, off.saturating_sub(1)]);
+    }
+    cuts.push(48 + get32(valid, 16) as usize);
+    cuts.push(rng.below(len as u64) as usize);
+    cuts.retain(|c| *c < len);
+    cuts.sort();
+    cuts.dedup();
+    rng.shuffle(&mut cuts);
+    for c in cuts.into_iter().take(4) {
+        v.push(("trunc", valid[..c].to_vec()));
+    }
+    v.push(("trunc", valid[..len - 1].to_vec()));
+    let mut m = valid.to_vec();
+    match rng.below(3) {
+        0 => m[0] = b'T',
+        1 => m[7] = b'Y',
+        _ => m[..8].copy_from_slice(b"symindex"),
+    }
+    v.push(("magic", m));
+    let mut c = valid.to_vec();
+    match rng.below(4) {
+        0 => put32(&mut c, 36, get32(valid, 36) + 1),      // one symbol more than there are entries: table ends 16 bytes past EOF
+        1 => put32(&mut c, 20, 0x1000_0000),               // file_count * 16 overflows u32
+        2 => put32(&mut c, 16, len as u32),                // module info reaches past EOF
+        _ => put32(&mut c, 44, len as u32 + 1),            // symbol entries start past EOF
+    }
+    v.push(("counts", c));
+    if let Some(f) = foreign {
+        v.push(("foreign", f.to_vec()));
+    }
+    let mut g = valid.to_vec();
+    for _ in 0..rng.range(1, 3) {
+        let at = rng.range(8, len as u64 - 1) as usize;
+        g[at] = if rng.chance(1, 2) { g[at] ^ (1 << rng.below(8)) } else { rng.below(256) as u8 };
+    }
+    v.push(("garbage", g));
+    let mut pd = valid.to_vec();
+    pd.extend((0..rng.range(1, 20)).map(|_| rng.below(256) as u8));
+    v.push(("padded", pd));
+    v
+}
+
+/// `stored` / `wholesym` ops for the text `file` (an abstract file `f` when there is one: the foreign index
+/// then belongs to another random file with the same MODULE line, so that its debug id matches).
+fn stored_ops(rng: &mut Rng, file: &[u8], f: Option<&SymFile>) -> Vec<String> {
+    let (st, valid) = run_creator(file, &[(0, file.len())]);
+    let valid = (st == "ok").then_some(valid);
+    let foreign = f.and_then(|f| {
+        let mut g = small_wf(rng, 10);
+        g.module = f.module.clone();
+        let t = g.render().bytes;
+        let (st, b) = run_creator(&t, &[(0, t.len())]);
+        (st == "ok" && t != file).then_some(b)
+    });
+    let bad = bad_indexes(rng, valid.as_deref(), foreign.as_deref());
+    let mut ops: Vec<String> = bad.iter().map(|(k, b)| format!("stored {k} {}", hex(b))).collect();
+    ops.push("wholesym fresh".to_string());
+    for kind in ["trunc", "foreign", if rng.chance(1, 2) { "empty" } else { "counts" }] {
+        let c: Vec<&(&str, Vec<u8>)> = bad.iter().filter(|(k, _)| *k == kind).collect();
+        if !c.is_empty() {
+            let (k, b) = *rng.pick(&c);
+            ops.push(format!("wholesym stale {k} {}", hex(b)));
+        }
+    }
+    ops
+}
+
+// ---------------------------------------------------------------------------------------------
 // fixed cases
 // ---------------------------------------------------------------------------------------------
 
@@ -847,7 +1076,12 @@ const TEST2: &[&[u8]] = &[
 /// line, second boundary inside a FUNC line.
 fn big_case(variant: u64) -> Case {
     const MIB: usize = 1 << 20;
-    let nl: &[u8] = if variant == 2 { b"\r\n" } else { b"\n" };
+    // variants >= 3: generated — LF or CRLF, the 1 MiB boundary anywhere in the PUBLIC line or its terminator
+    // (mid-token, before / between / after `\r` `\n`), or the two-boundary layout of variant 1 shifted
+    let mut vr = Rng::new(0xB16_0000 + variant);
+    let crlf = variant == 2 || (variant >= 3 && vr.chance(1, 2));
+    let two_mib = variant == 1 || (variant >= 3 && vr.chance(1, 3));
+    let nl: &[u8] = if crlf { b"\r\n" } else { b"\n" };
     let line = |s: &str| -> Vec<u8> { [s.as_bytes(), nl].concat() };
     let len_of = |raw: &[(Vec<u8>, usize)]| -> usize { raw.iter().map(|(b, c)| b.len() * c).sum() };
     // append `rec` lines (one `rep`) + one zero-padded spelling of it so that the file is exactly `target` bytes long
@@ -863,18 +1097,23 @@ fn big_case(variant: u64) -> Case {
         (line("FUNC 1000 100 0 bigfunc"), 1),
     ];
     let public = "PUBLIC 200000 0 public_symbol_on_the_chunk_boundary";
-    if variant == 1 {
+    if two_mib {
         let rec = "1000 4 1 0";
-        fill(&mut raw, MIB - 5 - 10 * (rec.len() + 1), rec);
+        let shift = if variant >= 3 { vr.range(0, (rec.len() + nl.len()) as u64) as usize } else { 5 };
+        fill(&mut raw, MIB - shift - 10 * (rec.len() + nl.len()), rec);
         raw.push((line(rec), 60)); // the 11th of these starts 5 bytes before the boundary
         raw.push((line(public), 1));
         raw.push((line("FUNC 300000 100 0 second"), 1));
-        fill(&mut raw, 2 * MIB - 10, "300000 4 2 0");
+        fill(&mut raw, 2 * MIB - if variant >= 3 { vr.range(0, 50) as usize } else { 10 }, "300000 4 2 0");
         raw.push((line("FUNC 400000 10 0 function_on_the_second_boundary"), 1));
         raw.push((line("400000 10 9 0"), 1));
     } else {
         // variant 0: the boundary lies 20 bytes into the PUBLIC line; variant 2: between its \r and \n
-        let into = if variant == 2 { public.len() + 1 } else { 20 };
+        let into = match variant {
+            0 => 20,
+            2 => public.len() + 1,
+            _ => vr.range(0, (public.len() + nl.len()) as u64) as usize,
+        };
         fill(&mut raw, MIB - into, "1000 4 1 0");
         raw.push((line(public), 1));
         raw.push((line("FUNC 300000 10 0 after"), 1));
@@ -898,7 +1137,9 @@ fn big_case(variant: u64) -> Case {
         format!("part {} {}", 2 * MIB, 2 * MIB + 1),
     ];
     let mut rng = Rng::new(77 + variant);
-    let ops = build_ops(&mut rng, Tier::Quick, "big", 0, &items, Some(parts), &[0x1000, 0x1003, 0x1004, 0x10ff, 0x1100, 0x2000]);
+    // the same file under wholesym: `parse_sym_file_into_index` reads it in 2 MiB pieces
+    let extra = vec!["wholesym fresh".to_string()];
+    let ops = build_ops_with(&mut rng, Tier::Quick, "big", 0, &items, Some(parts), &[0x1000, 0x1003, 0x1004, 0x10ff, 0x1100, 0x2000], extra);
     Case { name: format!("big{variant}"), ops }
 }
 
@@ -910,12 +1151,17 @@ fn literal_case(name: &str, reading: u8, text: &[u8], extra_parts: &[String]) ->
     let extra = extra_addresses(&items);
     // the unit-test file of symbol_map.rs has a line record that ends before its FUNC does: family line-gap
     let family = if name == "overeager-demangle" { "line-gap" } else { "fixed" };
-    Case { name: name.to_string(), ops: build_ops(&mut rng, Tier::Quick, family, reading, &items, Some(parts), &extra) }
+    let mut extra_ops = vec!["wholesym fresh".to_string()];
+    if !text.is_empty() {
+        extra_ops.extend(stored_ops(&mut rng, text, None));
+    }
+    Case { name: name.to_string(), ops: build_ops_with(&mut rng, Tier::Quick, family, reading, &items, Some(parts), &extra, extra_ops) }
 }
 
 // ---------------------------------------------------------------------------------------------
 
-const FAMILIES: [(&str, u64); 6] = [("wf", 35), ("origin-in-func", 8), ("line-gap", 10), ("dup", 15), ("edge", 17), ("junk", 15)];
+const FAMILIES: [(&str, u64); 8] =
+    [("wf", 31), ("origin-in-func", 7), ("line-gap", 10), ("dup", 13), ("edge", 15), ("junk", 13), ("stored", 11), ("dense", 8)];
 
 impl Prop for C10 {
     fn id(&self) -> &'static str {
@@ -924,7 +1170,7 @@ impl Prop for C10 {
     fn case_count(&self, tier: Tier) -> u64 {
         match tier {
             Tier::Quick => 300,
-            Tier::Thorough => 2500,
+            Tier::Thorough => 2000,
         }
     }
     fn fixed_cases(&self, tier: Tier) -> Vec<Case> {
@@ -966,7 +1212,8 @@ impl Prop for C10 {
             parts.extend((0..=r.bytes.len()).map(|k| format!("part {k}")));
             v.push(Case { name: format!("allcuts{i}"), ops: build_ops(&mut rng, tier, "wf", 1, &items_of(&r), Some(parts), &[]) });
         }
-        for variant in 0..if tier == Tier::Quick { 1 } else { 3 } {
+        // > 1 MiB: the three hand-placed layouts and generated ones (thorough only: 3)
+        for variant in 0..if tier == Tier::Quick { 3 } else { 6 } {
             v.push(big_case(variant));
         }
         v
@@ -984,7 +1231,23 @@ impl Prop for C10 {
                 let raw = if family == "edge" { gen_edge(rng) } else { gen_junk(rng) };
                 let items = items_of(&render_raw_lines(&raw));
                 let extra = extra_addresses(&items);
-                build_ops(rng, tier, family, 0, &items, None, &extra)
+                // one in six: damaged stored indexes for a file that is not well-formed either
+                let extra_ops = if rng.chance(1, 6) { stored_ops(rng, &file_of(&items), None) } else { Vec::new() };
+                build_ops_with(rng, tier, family, 0, &items, None, &extra, extra_ops)
+            }
+            "stored" => {
+                let mut f = small_wf(rng, 5);
+                for _ in 0..20 {
+                    if f.records.iter().any(|r| matches!(r, Record::Func { .. })) {
+                        break;
+                    }
+                    f = small_wf(rng, 5);
+                }
+                let r = f.render();
+                let len = r.bytes.len();
+                let parts = vec!["part".to_string(), "partsize 7".to_string(), format!("part {}", rng.below(len as u64 + 1)), format!("partsize {}", rng.range(1, 64))];
+                let extra_ops = stored_ops(rng, &r.bytes, Some(&f));
+                build_ops_with(rng, tier, family, 1, &items_of(&r), Some(parts), &[], extra_ops)
             }
             _ => {
                 let o = GenOptions {
@@ -994,11 +1257,13 @@ impl Prop for C10 {
                     dups: family == "dup",
                     long_line: if family == "wf" { 40 } else { 0 },
                     medium_line: 12,
+                    dense: family == "dense",
                 };
+                let o = if family == "dense" { GenOptions { max_symbols: 6, ..o } } else { o };
                 let mut f = SymFile::random(rng, &o);
                 // the families that are about FUNC bodies need at least one FUNC
                 for _ in 0..20 {
-                    if family == "wf" || family == "dup" || f.records.iter().any(|r| matches!(r, Record::Func { .. })) {
+                    if family == "wf" || family == "dup" || family == "dense" && f.records.iter().any(|r| matches!(r, Record::Func { body, .. } if body.len() > 12)) || family != "dense" && f.records.iter().any(|r| matches!(r, Record::Func { .. })) {
                         break;
                     }
                     f = SymFile::random(rng, &o);
@@ -1011,7 +1276,9 @@ impl Prop for C10 {
         // --- replay: only the bytes of l / rep, the partition ops and the lookups are used
         let mut file: Vec<u8> = Vec::new();
         let mut parts: Vec<PartOp> = Vec::new();
-        let mut addrs: Vec<u32> = Vec::new();
+        let mut actions: Vec<Action> = Vec::new();
+        let mut stored: Vec<(String, Vec<u8>)> = Vec::new();
+        let mut ws: Vec<Option<(String, Vec<u8>)>> = Vec::new();
         let (mut crlf, mut lines, mut last_terminated, mut max_line) = (0u64, 0u64, true, 0usize);
         for op in ops {
             let w: Vec<&str> = op.split_whitespace().collect();
@@ -1038,7 +1305,16 @@ impl Prop for C10 {
                 Some("tiebreak") => stats.bump(&format!("tiebreak_{}", w.get(1).unwrap_or(&"?"))),
                 Some("part") => parts.push(PartOp::Cuts(w[1..].iter().filter_map(|s| s.parse().ok()).collect())),
                 Some("partsize") => parts.push(PartOp::Size(w.get(1).and_then(|s| s.parse().ok()).unwrap_or(1))),
-                Some("lookup") => addrs.extend(w[1..].iter().filter_map(|s| s.parse::<u32>().ok())),
+                Some("lookup") => actions.extend(w[1..].iter().filter_map(|s| s.parse::<u32>().ok()).map(Some)),
+                Some("itersyms") => actions.push(None),
+                Some("stored") => {
+                    stats.bump(&format!("stored_{}", w.get(1).unwrap_or(&"?")));
+                    stored.push((w.get(1).unwrap_or(&"?").to_string(), unhex(w.get(2).unwrap_or(&"-"))));
+                }
+                Some("wholesym") => match w.get(1).copied() {
+                    Some("stale") => ws.push(Some((w.get(2).unwrap_or(&"?").to_string(), unhex(w.get(3).unwrap_or(&"-"))))),
+                    _ => ws.push(None),
+                },
                 _ => stats.bump("unknown_ops"),
             }
         }
@@ -1093,15 +1369,28 @@ impl Prop for C10 {
             stats.add("symbols", out.iter().filter(|l| l.starts_with("sym ")).count() as u64);
         }
         // --- symbol maps without and with a stored index
-        map_lines(&file, None, &addrs, ["selfmap", "look", "frame"], &mut out, stats);
-        map_lines(&file, last.as_deref(), &addrs, ["storedmap", "slook", "sframe"], &mut out, stats);
+        let self_at = out.len();
+        map_lines(&file, None, &actions, "selfmap", "", &mut out, stats);
+        let self_line: Vec<String> = out[self_at].split(' ').map(|s| s.to_string()).collect();
+        map_lines(&file, last.as_deref(), &actions, "storedmap", "s", &mut out, stats);
+        // --- damaged / foreign stored indexes
+        for (k, (_, bytes)) in stored.iter().enumerate() {
+            map_lines(&file, Some(bytes), &actions, &format!("x{k}map"), &format!("x{k}"), &mut out, stats);
+        }
+        // --- the same text as a local .sym file of wholesym (2 MiB read loop, .symindex cache)
+        for (k, e) in ws.iter().enumerate() {
+            let id = (self_line.get(1).map(|s| s.as_str()) == Some("ok")).then(|| self_line[2].as_str());
+            wholesym_lines(&file, e.as_ref().map(|e| e.1.as_slice()), id, self_line.get(1).map(|s| s.as_str()).unwrap_or("?"), &actions, k, &mut out, stats);
+        }
         out
     }
     fn nontrivial(&self, ops: &[String], out: &[String]) -> bool {
         ops.iter().filter(|o| o.starts_with("part")).count() >= 2
             && out.first().is_some_and(|l| l.starts_with("part 0 ok "))
             && out.iter().any(|l| l.starts_with("sym "))
-            && out.iter().any(|l| l.starts_with("look ") && l.split(' ').nth(2) == Some("sym"))
+            // a successful lookup through either map (a regression that breaks only the self-indexing map must
+            // still reach the judge instead of tripping the "too few non-trivial cases" gate)
+            && out.iter().any(|l| (l.starts_with("look ") || l.starts_with("slook ")) && l.split(' ').nth(2) == Some("sym"))
     }
 }
 
